@@ -1,5 +1,6 @@
 """C08 - queue limits and non-preemptible-within-quota hold at every level."""
 import st_cluster
+import st_fixtures
 
 LEVEL = "model_checking"
 PREFIXES = ["C08_"]
@@ -11,3 +12,5 @@ def run(ctx):
                        "non-trivial = a decision was taken")
     n = 300 if ctx.quick else 8000
     st_cluster.run_stage(ctx, PREFIXES, [("mixed", n // 2), ("full", n // 4), ("fraction", n // 4)])
+    if not ctx.quick:
+        st_fixtures.run_stage(ctx, PREFIXES)
